@@ -167,9 +167,11 @@ pub fn run(spec: &Value) -> Result<Option<String>, String> {
                 ss_tcp::<32>(spec, cfg, opens)?
             }
         }
+        "vmess_body" => vmess_body(spec, cfg, opens)?,
         _ => return Err(format!("framed: unknown decoder {decoder}")),
     };
     verif::script_opens(None);
+    verif::script_shake(None);
     verif::set_clock(None);
     Ok(judge(spec, &out))
 }
@@ -187,5 +189,40 @@ fn ss_tcp<const N: usize>(spec: &Value, cfg: &Value, opens: Vec<Option<Vec<u8>>>
     let mut codec = sstcp::AEADCipherCodec::<N>::default();
     verif::script_opens(Some(opens));
     let dec = FnDecoder(move |src: &mut BytesMut| codec.decode(&context, &mut session, src).map(|o| o.map(|b| b.to_vec())));
+    Ok(drive(dec, spec))
+}
+
+fn vmess_body(spec: &Value, cfg: &Value, opens: Vec<Option<Vec<u8>>>) -> Result<Outcome, String> {
+    use octo_squirrel::codec::vmess::aead::AEADBodyCodec;
+    use octo_squirrel::protocol::address::Address;
+    use octo_squirrel::protocol::vmess::header::RequestCommand;
+    use octo_squirrel::protocol::vmess::header::RequestHeader;
+    use octo_squirrel::protocol::vmess::header::RequestOption;
+    use octo_squirrel::protocol::vmess::header::SecurityType;
+    use octo_squirrel::protocol::vmess::session::ClientSession;
+    use octo_squirrel::protocol::vmess::session::ServerSession;
+    use octo_squirrel::protocol::vmess::session::Session;
+    let mut options = vec![RequestOption::ChunkStream];
+    match cfg["chunk"].as_str() {
+        Some("Shake") => options.push(RequestOption::ChunkMasking),
+        Some("Auth") => options.push(RequestOption::AuthenticatedLength),
+        _ => {}
+    }
+    if cfg["padding"].as_str() == Some("Shake") {
+        options.push(RequestOption::GlobalPadding);
+    }
+    let packet = cfg["packet"].as_bool().unwrap_or(false);
+    let security = if cfg["security"].as_str() == Some("Chacha20Poly1305") { SecurityType::Chacha20Poly1305 } else { SecurityType::Aes128Gcm };
+    let header = RequestHeader::new(1, if packet { RequestCommand::UDP } else { RequestCommand::TCP }, options, security, Address::Socket("1.2.3.4:80".parse().unwrap()), [5u8; 16]);
+    let server = ServerSession::new([1u8; 16], [2u8; 16], 7);
+    let mut session: Box<dyn Session> = if cfg["side"].as_str() == Some("client") { Box::new(ClientSession::from(&[[1u8; 16], [2u8; 16]].concat().iter().copied().chain([7u8]).collect::<Vec<u8>>()[..])) } else { Box::new(server) };
+    let mut codec = AEADBodyCodec::new_decoder(&header, session.as_mut()).map_err(|e| e.to_string())?;
+    verif::script_opens(Some(opens));
+    let shake: Vec<u16> = spec["shake"].as_array().map(|a| a.iter().map(|x| x.as_u64().unwrap_or(0) as u16).collect()).unwrap_or_default();
+    verif::script_shake(Some(shake));
+    let dec = FnDecoder(move |src: &mut BytesMut| {
+        let r = if packet { codec.decode_packet(src, session.as_mut()) } else { codec.decode_payload(src, session.as_mut()) };
+        r.map(|o| o.map(|b| b.to_vec())).map_err(|e| anyhow::anyhow!(e))
+    });
     Ok(drive(dec, spec))
 }
